@@ -174,7 +174,7 @@ def build_stub(ck):
     return exe
 
 
-def build(ck, triple, missing=(), tag=None):
+def build(ck, triple, missing=(), tag=None, extra=()):
     """Build the stubbed driver for `triple`.  `missing` = roles among cpp/qbe/as/ld whose
     configured path does not exist (spawn failure); cproc-qbe is made missing per run with
     Drv.run(nocc=True).  Raises CompileError when driver.c no longer builds this way."""
@@ -197,7 +197,7 @@ def build(ck, triple, missing=(), tag=None):
     r = common.sh(["sh", conf, "--host=" + HOST, "--target=" + triple,
                    "--with-gcc-libdir=/usr/lib/gcc/%s/12" % triple,
                    "--with-cpp=" + tools["cpp"], "--with-qbe=" + tools["qbe"],
-                   "--with-as=" + tools["as"], "--with-ld=" + tools["ld"]], cwd=d)
+                   "--with-as=" + tools["as"], "--with-ld=" + tools["ld"]] + list(extra), cwd=d)
     if r.returncode != 0 or not os.path.exists(os.path.join(d, "config.h")):
         raise CompileError("configure failed for %s: %s" % (triple, r.stdout[-1500:]))
     cfg = parse_config_h(open(os.path.join(d, "config.h")).read())
